@@ -630,3 +630,34 @@ def small_edit(H, no_duplicates=False):
                     H.remove_node_from_edge(e, v, remove_empty=False)
                     return ("remove_node_from_edge", e, v)
     return None
+
+
+def bunch(ids):
+    """the ID list of a bulk removal as a list, a tuple or a one-shot iterator ("list or iterable of hashables"); the form is a
+    pure function of the op, so a replay uses the same one"""
+    ids = list(ids)
+    form = len(repr(ids)) % 3
+    return ids if form == 0 else (tuple(ids) if form == 1 else iter(ids))
+
+
+def scribble_after(c):
+    """the caller goes on using the container it passed in: a network must not be affected (it has to keep its own copy)"""
+    try:
+        if isinstance(c, set):
+            c.add("__after_the_call__")
+        elif isinstance(c, list):
+            c.append("__after_the_call__")
+        elif isinstance(c, dict):
+            c["__after_the_call__"] = 1
+    except Exception:  # noqa: BLE001
+        pass
+
+
+def shadow_stat_names(H):
+    """ordinary string-named attributes that happen to be called like statistics: a name handed to filterby() and friends
+    means the statistic, whatever attributes the elements carry"""
+    ns, es = list(H.nodes), list(H.edges)
+    for i, n in enumerate(ns):
+        H.nodes[n].update({"degree": 40 + i, "size": 7})
+    for i, e in enumerate(es):
+        H.edges[e].update({"order": 30 + i, "size": 50 + i, "degree": 1})
